@@ -884,6 +884,20 @@ func c19FidWorker(c *shard.Ctx) {
 					continue
 				}
 			}
+			if len(vs) == 0 && o.isDefault() && strings.Contains(md, "\n") {
+				// the same document with CR LF line endings (a file written on Windows) is the same Markdown
+				crlf := strings.ReplaceAll(md, "\n", "\r\n")
+				c.P.Evals++
+				c.P.Transitions++
+				c.P.Add("fidelity_conversions_crlf", 1)
+				if sig := c19JudgeAgain(crlf, o, exp); sig != "" {
+					if again := c19JudgeAgain(crlf, o, exp); again == sig {
+						first := strings.SplitN(strings.Fields(sig)[0], "|", 2)[0]
+						c.P.Outcome("crlf-differs")
+						report(rep.Violation{Sig: "line-endings|crlf|" + first, Clause: "line-endings", What: "with LF line endings the conversion is faithful, with CR LF line endings it is not: " + sig})
+					}
+				}
+			}
 			if len(vs) == 0 {
 				c.P.Outcome("faithful")
 				if samples < 1 && c.Shard < 6 && nblocks >= 2 {
